@@ -295,6 +295,21 @@ def explain(case_line, fail):
     return None
 
 
+def shapes(case_line):
+    """which open-finding input shapes occur in a case (the zones where the model encodes the defect)"""
+    c = parse_case(case_line); out = set()
+    if c['kind'] == 'scan':
+        toks = tokenize(c['tpl'])
+        return {'D11'} if toks and d11_shape(toks) else out
+    for st in c['stmts']:
+        toks = tokenize(st['tpl'])
+        if toks and d11_shape(toks): out.add('D11')
+        rend = [o for _, _, ok, o in st['table'] if ok]
+        if any(SEP in r for r in rend): out.add('D12')
+        if any(b'\n' in r for r in rend): out.add('NL')
+    return out
+
+
 def open_findings():
     p = os.path.join(VERIF, 'known_findings.d', PID + '.json')
     if not os.path.exists(p): return {}
@@ -304,9 +319,15 @@ def open_findings():
 KNOWN_ID = {'D11': 'D11', 'D12': 'D12', 'NL': 'D15-json-newline'}
 
 
+_MODEL_LINES = {}      # case line -> model observation (filled by run / shrink)
+
+
 def known_match(case_line, impl_line, msg):
+    """text for the KNOWN-FINDING line when every failing clause is explained by the input shape of an
+    open entry AND the implementation does exactly what the faithful (defective) model predicts"""
     fs = failures(case_line, impl_line)
     if not fs: return None
+    if _MODEL_LINES.get(case_line, impl_line) != impl_line: return None
     of = open_findings(); ids = []
     for f in fs:
         e = explain(case_line, f)
@@ -641,21 +662,37 @@ def run(tier):
     ml = ck.run_model(mexe, cases)
     il = ck.run_impl(iexe, cases, timeout=900 if not q else 300)
 
+    # an open finding that has been repaired: on its input shape the implementation now satisfies the
+    # property while the model still encodes the defect; that is not a disagreement to report
+    repaired = {}
+    for k, (c, m, i) in enumerate(zip(cases, ml, il)):
+        if m != i and monitor(c, i) is None:
+            sh = shapes(c)
+            if sh:
+                ml[k] = i
+                for x in sh: repaired[x] = repaired.get(x, 0) + 1
+    if repaired:
+        ck.notes.append('inputs of open-finding shapes on which the implementation now satisfies the property although the model '
+                        'encodes the defect (finding repaired? update known_findings.d/C19.json and the model): %s' % repaired)
+
     def shrink(case, mode):
         c = parse_case(case)
         if c['kind'] == 'scan':
             def fails_b(bs):
                 l = enc_case({'kind': 'scan', 'tpl': bytes(bs)}); i = ck.run_impl(iexe, [l])[0]
+                _MODEL_LINES[l] = ck.run_model(mexe, [l])[0]
                 if mode == 'monitor': return monitor(l, i) is not None and known_match(l, i, '') is None
                 return ck.run_model(mexe, [l])[0] != i
             return enc_case({'kind': 'scan', 'tpl': bytes(ddmin(list(c['tpl']), fails_b))})
         def fails(sts):
             l = enc_case(dict(c, stmts=sts)); i = ck.run_impl(iexe, [l])[0]
+            _MODEL_LINES[l] = ck.run_model(mexe, [l])[0]
             if mode == 'monitor': return monitor(l, i) is not None and known_match(l, i, '') is None
             return ck.run_model(mexe, [l])[0] != i
         sts = ddmin(c['stmts'], fails) if len(c['stmts']) > 1 else c['stmts']
         return enc_case(dict(c, stmts=sts))
 
+    _MODEL_LINES.update(zip(cases, ml))
     dis, mon = correspond(ck, 'M-NA vs BackendWorker/JsonSink', cases, ml, il, monitor=monitor, shrink=shrink, known_match=known_match)
     if broken and not ck.violations:
         ck.violation('no-failing-input-found', '; '.join(broken))
@@ -692,6 +729,7 @@ def replay(path):
         pass
     mf = monitor(c, i)
     print('monitor:', mf or 'property holds on this case'); print('model == impl:', m == i)
+    _MODEL_LINES[c] = m
     k = known_match(c, i, mf) if mf else None
     if k: print('KNOWN-FINDING: property=%s %s' % (PID, k))
     return 1 if (mf and not k) or m != i else 0
